@@ -1498,3 +1498,34 @@ fn get_glv_token_value_via_cpi<'info>(
 
 #[cfg(not(feature = "no-entrypoint"))]
 gmsol_utils::security_txt!("GMX-Solana Liquidity Provider Program");
+
+/// Verification-only re-exports of the private pure reward functions (no logic).
+/// Compiled only with `--cfg gmsol_verif`.
+#[cfg(gmsol_verif)]
+pub mod verif_hooks {
+    use super::*;
+
+    /// Calls the private `calculate_gt_reward_amount`.
+    pub fn calculate_gt_reward_amount(
+        staked_value_usd: u128,
+        duration_seconds: i64,
+        gt_apy_per_sec: u128,
+        inv_cost_integral: u128,
+    ) -> Result<u64> {
+        super::calculate_gt_reward_amount(
+            staked_value_usd,
+            duration_seconds,
+            gt_apy_per_sec,
+            inv_cost_integral,
+        )
+    }
+
+    /// Calls the private `compute_time_weighted_apy`.
+    pub fn compute_time_weighted_apy(
+        stake_start_time: i64,
+        now: i64,
+        apy_gradient: &[u128; APY_BUCKETS_U8 as usize],
+    ) -> u128 {
+        super::compute_time_weighted_apy(stake_start_time, now, apy_gradient)
+    }
+}
